@@ -144,18 +144,25 @@ def realloc_tr(points):
 THROWING_ARCH = re.compile(r'^arch::(TC|TRnc|NTR|NTRtm|OptOut|MoveOnly|ReallocAlloc|ArenaAlloc)::')
 
 
+STD_ALLOC_FAILURE = {'std::__throw_bad_alloc', 'std::__throw_bad_array_new_length', 'std::__throw_length_error'}
+
+
 def throw_sources(prog):
+    """The throwing events the properties quantify over: throw expressions of amc and of user code (element types, comparators
+    of a real TU), allocator requests (operator new, the allocation-failure helpers of libstdc++, the archetype allocators) and
+    the element operations of the archetypes that are not declared noexcept.  Other exceptions raised inside the standard
+    library (bad_variant_access of a valueless variant, bad_optional_access, ...) are not among them."""
     src = {}
     for fid, f in prog.fns.items():
         n = f['name']
         if f.get('hasbody'):
             th = [t for t in f.get('throws', []) if t != 'rethrow']
-            if th and not f.get('swallows'):
+            if th and not f.get('swallows') and not f.get('std'):
                 src[fid] = 'throw %s' % th[0]
         else:
             if f.get('nothrow'):
                 continue
-            if THROWING_ARCH.match(n) or n in ('operator new', 'operator new[]') or n.startswith('std::__throw_'):
+            if THROWING_ARCH.match(n) or n in ('operator new', 'operator new[]') or n in STD_ALLOC_FAILURE:
                 src[fid] = 'may throw by contract (%s)' % n
     return src
 
@@ -274,22 +281,29 @@ def _removes_const(frm, to):
 
 def const_pure(progs):
     """Every function reachable (through amc callees) from a public const member, with `this`
-    (or a const-reference parameter) designating the shared object, performs no write to it."""
+    (or a pointer/reference-to-const parameter) designating the shared object, performs no write to it."""
     rr = RuleResult('CONST-PURE', 'no function reachable from a public const member casts const away from, stores through, '
                                   'or calls a non-const member on the shared object; locals excepted')
     for prog in progs:
         visited = set()
-        entries = [f for f in prog.amc_functions() if f.get('const') and f.get('access') == 'public' and not f.get('lambda')]
-        # copy construction / comparison from a const container: functions with a const& parameter of an amc class
-        work = [(f['id'], True) for f in entries]
+        work = []
         for f in prog.amc_functions():
-            if f.get('kind') == 'ctor' and f.get('params') and f['params'][0]['t'].startswith('const amc::') and f.get('access') == 'public':
-                work.append((f['id'], False))
-        while work:
-            fid, shared_this = work.pop()
-            if (fid, shared_this) in visited:
+            if f.get('lambda'):
                 continue
-            visited.add((fid, shared_this))
+            ps = f.get('params', [])
+            if f.get('const') and f.get('access') == 'public':
+                # a const member: this and every parameter that can refer to const data may be the shared object
+                work.append((f['id'], True, frozenset(i for i, p in enumerate(ps) if pointee_const(p['t']))))
+            elif f.get('kind') == 'ctor' and f.get('access') == 'public' and ps and f.get('cls') and \
+                    ps[0]['t'].replace('const ', '').replace('&', '').strip() == f['cls']:
+                # copy construction from a (possibly shared) const container
+                if pointee_const(ps[0]['t']):
+                    work.append((f['id'], False, frozenset({0})))
+        while work:
+            fid, shared_this, shared_params = work.pop()
+            if (fid, shared_this, shared_params) in visited:
+                continue
+            visited.add((fid, shared_this, shared_params))
             f = prog.fns.get(fid)
             if f is None or not f.get('amc') or f.get('body') is None:
                 continue
@@ -297,33 +311,29 @@ def const_pure(progs):
             linit = A.local_inits(body)
             site_key = '%s|%s' % (f['key'], rel(f['loc']))
             rr.instance(site_key, {'function': f['pname'][:160], 'unit': prog.uname, 'this_is_shared': shared_this,
-                                   'verdict': 'reads only'})
-
-            def shared_root(n):
-                kind, r = A.root(n, linit)
-                if kind == 'this':
-                    return shared_this
-                return kind in ('param', 'global', 'other')
-
-            def const_shared_root(n):
-                # the cast sheds a const that the *declaration* of the root carries (a const added and removed again
-                # inside one expression, as in construct_at's void* conversion of a T* parameter, sheds nothing)
-                kind, r = A.root(n, linit)
-                if kind == 'this':
-                    return shared_this
-                if kind == 'param':
-                    return bool(pointee_const(param_type(r)))
-                return kind in ('global', 'other')
+                                   'shared_params': sorted(shared_params), 'verdict': 'reads only'})
 
             def param_type(r):
                 i = r.get('idx')
                 ps = f.get('params', [])
                 return ps[i]['t'] if i is not None and i < len(ps) else r.get('t', '')
 
+            def is_shared(n):
+                kind, r = A.root(n, linit)
+                if kind == 'this':
+                    return shared_this
+                if kind == 'param':
+                    return r.get('idx') in shared_params
+                return kind in ('global',)
+
+            whole = {'b': body, 'i': f.get('inits')}
             # (1) casts that shed const from something rooted in the shared object
-            for n in walk({'b': body, 'i': f.get('inits')}):
+            for n in walk(whole):
                 if n.get('k') == 'cast' and n.get('ck') in ('const', 'cstyle', 'reinterpret', 'functional'):
-                    if _removes_const(n.get('from', ''), n.get('t', '')) and const_shared_root(n.get('sub')):
+                    if _removes_const(n.get('from', ''), n.get('t', '')) and is_shared(n.get('sub')):
+                        kind, r = A.root(n.get('sub'), linit)
+                        if kind == 'param' and not pointee_const(param_type(r)):
+                            continue   # a const added and removed again inside one expression sheds nothing
                         rr.add(Finding('CONST-PURE', '%s|cast' % f['key'], prog.site(f, n),
                                        'const is cast away from the shared object inside a function reachable from the const API'
                                        ' (%s -> %s)' % (n.get('from'), n.get('t')), where=f['pname'], unit=prog.uname))
@@ -341,65 +351,55 @@ def const_pure(progs):
                     rr.add(Finding('CONST-PURE', '%s|store-this' % f['key'], prog.site(f, st),
                                    'store through the shared object (via a pointer member or a mutable field) in a function '
                                    'reachable from the const API', where=f['pname'], unit=prog.uname))
-                elif kind == 'param':
+                elif kind == 'param' and r.get('idx') in shared_params:
                     pt = param_type(r)
-                    direct = A.strip(lhs) is r
+                    direct = l0 is r
                     if direct and not pt.rstrip().endswith('&'):
                         continue      # the callee's own copy (iterator, count)
-                    if pointee_const(pt) and not direct:
-                        continue      # pointer/reference to const: a store cannot compile without a cast (rule 1)
                     rr.add(Finding('CONST-PURE', '%s|store-param|%s' % (f['key'], r.get('name')), prog.site(f, st),
-                                   'store through parameter %s (%s) in a function reachable from the const API' % (r.get('name'), pt),
+                                   'store through parameter %s (%s), which can designate the shared object, in a function reachable from the const API' % (r.get('name'), pt),
                                    where=f['pname'], unit=prog.uname))
-            # (2b) mutable access to the shared object handed to a callee: an argument whose type is pointer (or
-            # lvalue) to non-const data, rooted in the shared object, bound to a non-const pointer/reference parameter
-            for c in A.calls({'b': body, 'i': f.get('inits')}):
+            # (2b) / (3) calls
+            for c in A.calls(whole):
                 callee_rec = prog.fns.get(c.get('fn')) if c.get('fn') else None
-                if callee_rec is None:
-                    continue
-                cps = callee_rec.get('params', [])
-                for i, a in enumerate(c.get('args', [])):
+                cps = callee_rec.get('params', []) if callee_rec else []
+                args = c.get('args', []) or []
+                sh = set()
+                for i, a in enumerate(args):
                     if not isinstance(a, dict) or i >= len(cps):
+                        continue
+                    if not is_shared(a):
                         continue
                     pt = cps[i]['t']
                     pc = pointee_const(pt)
-                    if pc is None or pc:
-                        continue      # by value, or pointer/reference to const
-                    if pt.rstrip().endswith('&&'):
-                        continue      # binds temporaries
-                    kind, r = A.root(a, linit)
-                    if not ((kind == 'this' and shared_this) or kind == 'global'):
+                    if pc is None:
+                        continue          # by value: a copy
+                    sh.add(i)
+                    if pc or pt.rstrip().endswith('&&'):
                         continue
+                    # mutable access to the shared object handed to a callee
                     at = A.strip(a).get('t', '')
-                    apc = pointee_const(at)
                     if pt.rstrip().endswith('&'):
                         mutable_arg = a.get('lv') and not (at.startswith('const ') or at.endswith(' const'))
                     else:
-                        mutable_arg = apc is False
+                        mutable_arg = pointee_const(at) is False
                     if mutable_arg:
                         rr.add(Finding('CONST-PURE', '%s|escape|%s' % (f['key'], short(callee_rec['name'])), prog.site(f, c),
                                        'mutable access to the shared object (argument %d, %s) is handed to %s, which takes it as %s'
                                        % (i, at, callee_rec['name'], pt), where=f['pname'], unit=prog.uname))
-            # (3) calls: follow amc callees; a non-const member called on the shared object is a write
-            for c in A.calls({'b': body, 'i': f.get('inits')}):
                 cid = c.get('fn')
                 if not c.get('amc') or cid is None:
                     continue
                 if c.get('k') == 'call' and c.get('method') and c.get('obj') is not None and not c.get('staticm'):
-                    kind, r = A.root(c['obj'], linit)
-                    obj_shared = (kind == 'this' and shared_this) or kind in ('param', 'global', 'other')
-                    if not c.get('constm'):
-                        if kind == 'this' and shared_this:
-                            rr.add(Finding('CONST-PURE', '%s|nonconst-call|%s' % (f['key'], short(c.get('name', ''))), prog.site(f, c),
-                                           'non-const member %s is called on the shared object from the const API' % c.get('pname', '')[:120],
-                                           where=f['pname'], unit=prog.uname))
-                        work.append((cid, False))
-                    else:
-                        work.append((cid, bool(obj_shared)))
+                    obj_shared = is_shared(c['obj'])
+                    if not c.get('constm') and obj_shared:
+                        rr.add(Finding('CONST-PURE', '%s|nonconst-call|%s' % (f['key'], short(c.get('name', ''))), prog.site(f, c),
+                                       'non-const member %s is called on the shared object from the const API' % c.get('pname', '')[:120],
+                                       where=f['pname'], unit=prog.uname))
+                    work.append((cid, bool(obj_shared), frozenset(sh)))
                 else:
-                    work.append((cid, False))
-            # lambdas defined here run with the same sharing
+                    work.append((cid, False, frozenset(sh)))
             for n in walk(body):
                 if n.get('k') == 'lambda' and n.get('fn'):
-                    work.append((n['fn'], False))
+                    work.append((n['fn'], False, frozenset()))
     return rr
